@@ -115,14 +115,9 @@ func genElem(r *rand.Rand, depth int, syms int) string {
 	return genAtom(r)
 }
 
-// vecLit yields a non-empty vector literal (the empty vector is in the avoid
-// set: its load form asks make-array for a dimension of 0, which is refused).
+// vecLit yields a vector literal.
 func vecLit(r *rand.Rand, depth int) string {
-	body := genListBody(r, depth, 2, false)
-	if body == "()" {
-		body = "(0)"
-	}
-	return "#" + body
+	return "#" + genListBody(r, depth, 2, false)
 }
 
 // genListBody yields "(e1 e2 ...)" (possibly dotted) without the quote.
@@ -157,8 +152,7 @@ var valueKinds = []string{"number", "string", "symbol", "character", "list", "ve
 var valueFeats = map[string][]string{
 	"number": {"long-float-digits"},
 	"symbol": {"plain-symbol"},
-	"list":   {"symbol-in-list", "quote-in-list"},
-	"vector": {"empty-vector"},
+	"list":   {"quote-in-list"},
 }
 
 // genValue yields the source of an expression whose value is an object of
@@ -193,15 +187,16 @@ func genValue(r *rand.Rand, kind, feat string) string {
 			// make sure a symbol is there
 			return "'(" + fw.Pick(r, symNames) + " " + body[1:]
 		}
-		body := genListBody(r, 3, 0, true)
+		// plain symbols are data like everything else in a quoted list
+		body := genListBody(r, 3, r.IntN(2), true)
 		if body == "()" {
 			body = "(1)"
 		}
 		return "'" + body
 	case "vector":
 		switch {
-		case feat == "empty-vector":
-			return fw.Pick(r, []string{"#()", "(make-array 0)", "(vector)"})
+		case feat == "empty-vector" || (feat == "" && r.IntN(12) == 0):
+			return fw.Pick(r, []string{"#()", "(make-array 0)", "(vector)", "(make-array '(0))"})
 		case feat == "fill-pointer" || (feat == "" && r.IntN(5) == 0):
 			n := 2 + r.IntN(5)
 			return fmt.Sprintf("(make-array %d :fill-pointer %d :initial-contents '%s)", n, r.IntN(n), fixedList(r, n, 2))
